@@ -316,6 +316,34 @@ def record_roles(run: Run, rnd: random.Random, thorough: bool, evs: list[dict[st
     return stats
 
 
+def record_views(evs: list[dict[str, Any]], kit: Kit, bases: list[tuple[Any, list[str]]]) -> int:
+    """PsbtView (a psbt read off a stream one map at a time) against the parsed object, on unsigned and signed psbts of both versions."""
+    from btclib.psbt.psbt import combine
+    from btclib.psbt.psbt_view import PsbtView
+
+    n = 0
+    for p, mix in bases:
+        forms = [p]
+        r = outcome(lambda: kit.s1.sign_psbt(p))
+        if not isinstance(r, str):
+            forms.append(combine([p, r]))
+        for q in forms:
+            b = q.serialize(check_validity=False)
+            v = outcome(lambda: PsbtView(io.BytesIO(b)))
+            if isinstance(v, str):
+                evs.append({"op": "view", "psbt": b.hex(), "view_maps": [v], "object_maps": [], "view_tx": "", "object_tx": "", "view_lock": -1, "object_lock": 0})
+                continue
+            ver = q.version
+            vm = [outcome(lambda i=i: v.input(i).serialize(psbt_version=ver, check_validity=False).hex()) for i in range(len(q.inputs))]
+            vm += [outcome(lambda i=i: v.output(i).serialize(psbt_version=ver, check_validity=False).hex()) for i in range(len(q.outputs))]
+            om = [x.serialize(psbt_version=ver, check_validity=False).hex() for x in q.inputs] + [x.serialize(psbt_version=ver, check_validity=False).hex() for x in q.outputs]
+            vt = outcome(lambda: v.tx.serialize(include_witness=False, check_validity=False).hex())
+            evs.append({"op": "view", "psbt": b.hex(), "view_maps": vm, "object_maps": om, "view_tx": vt, "object_tx": q.tx.serialize(include_witness=False, check_validity=False).hex(),
+                        "view_lock": outcome(lambda: v.lock_time), "object_lock": q.lock_time})
+            n += 1
+    return n
+
+
 def check(run: Run) -> None:
     thorough = run.tier == "thorough"
     rnd = random.Random(run.seed)
@@ -336,7 +364,9 @@ def check(run: Run) -> None:
     s1 = record_combines(run, rnd, thorough, evs, kit, bases)
     s2 = record_answers(run, rnd, thorough, evs, kit, bases)
     s3 = record_roles(run, rnd, thorough, evs, kit, bases)
-    keep = ("op", "operands", "outcome", "result", "request", "answer", "sigs_valid", "accepted", "before", "after", "args_before", "args_after", "shared", "check_tx")
+    s3["views"] = record_views(evs, kit, bases)
+    keep = ("op", "operands", "outcome", "result", "request", "answer", "sigs_valid", "accepted", "before", "after", "args_before", "args_after", "shared", "check_tx",
+            "psbt", "view_maps", "object_maps", "view_tx", "object_tx", "view_lock", "object_lock")
     compact = [{k: v for k, v in e.items() if k in keep} for e in evs]
     results, bad, diag = events.validate("C11Trace", compact, batch=2000, timeout=3000)
     for r in results:
@@ -348,6 +378,8 @@ def check(run: Run) -> None:
             key = "roles|combine|" + _lost_types(e)
         elif e["op"] == "answer":
             key = f"roles|answer|{e['tamper']}|accepted={e['accepted']}"
+        elif e["op"] == "view":
+            key = "roles|view|PsbtView differs from the parsed object"
         else:
             key = f"roles|role|{e['role']}"
         run.violation(key, f"{e['op']}: the specification does not explain {({kk: (vv if not isinstance(vv, (str, list)) or len(vv) < 80 else '...') for kk, vv in e.items()})}; expected {d[:600]}",
